@@ -133,6 +133,11 @@ def const_dead_edges(body):
         if not src or src[0] != "discr":
             continue
         p = src[1]["ops"][0].get("p")
+        if p is not None and p["proj"]:
+            # `match (a, b)`: field i of a tuple built here
+            pr = [e for e in p["proj"] if e != "*"]
+            q = _tuple_field_operand(body, {"l": p["l"], "proj": [pr[0]]}) if len(pr) == 1 and isinstance(pr[0], dict) and "f" in pr[0] else None
+            p = q.get("p") if isinstance(q, dict) else None
         if p is None or p["proj"]:
             continue
         df = single_def(body, p["l"])
